@@ -88,6 +88,31 @@ def main():
         bad["A"][0] += 2000
         v, _, _ = common.validate_traces("TraceReuse", "TraceReuse.cfg", [r, bad], wd)
         allok &= expect("TraceReuse", v, "ok:sound", "BAD:reported-transform-does-not-map")
+        # TraceArc: one sample of the produced cubics moved off the ellipse
+        from harness import c12, c13, structural
+        r = c12.arc_job((5, (0, 0), (3, 4), (-4, 3), 0, 1, 1, 1, 0, 0, "exact"))
+        bad = copy.deepcopy(r)
+        bad["segs"][0]["pts"][8] += bad["RR"] // 10
+        v, _, _ = common.validate_traces("TraceArc", "TraceArc.cfg", [r, bad], wd)
+        allok &= expect("TraceArc", v, "ok:arc", "BAD:deviates-from-ellipse")
+        # TraceBool: the real union of two squares with one vertex of the result pulled inwards
+        r = c13.one(("union", "pathops", (0, 1), ("nonzero", "nonzero")))
+        bad = copy.deepcopy(r)
+        pl = bad["r"]["polys"][0]
+        k = max(range(0, len(pl), 2), key=lambda i: pl[i] + pl[i + 1])
+        pl[k] -= 256
+        pl[k + 1] -= 256
+        v, _, _ = common.validate_traces("TraceBool", "TraceBool.cfg", [r, bad], wd, env={"DENSE": "0"})
+        allok &= expect("TraceBool", v, "ok:setop", "BAD:set-differs")
+        # TraceDoc: a converted document whose path gets a stroke attribute in the recorded projection
+        r, _ = structural.convert_record("C01", '<svg xmlns="http://www.w3.org/2000/svg" viewBox="0 0 16 16">'
+                                         '<rect x="1" y="1" width="4" height="5" fill="red"/></svg>', (3, 0, 0))
+        bad = copy.deepcopy(r)
+        for nd in bad["r"]["out"]["nodes"]:
+            if nd["tag"] == "path":
+                nd["at"].append(["stroke", list("blue"), ""])
+        v, _, _ = common.validate_traces("TraceDoc", "TraceDoc.cfg", [r, bad], wd)
+        allok &= expect("TraceDoc", v, "ok:", "BAD:")
     finally:
         common.cleanup(wd)
     print("binding self-test", "passed" if allok else "FAILED")
